@@ -24,7 +24,11 @@ from playback.interception.output_interception import OutputInterceptionDataHand
 from playback.tape_cassettes.in_memory.in_memory_tape_cassette import InMemoryTapeCassette
 from playback.tape_cassettes.file_based.file_based_tape_cassette import FileBasedTapeCassette
 
-EXC = {"ValueError": ValueError, "KeyError": KeyError, "RuntimeError": RuntimeError,
+class _UserAssertion(AssertionError):
+    """AssertionError raised by the generated service code (a failing service assert), told apart from the framework's."""
+
+
+EXC = {"AssertionError": _UserAssertion, "UnserError": pv.UnserError, "ValueError": ValueError, "KeyError": KeyError, "RuntimeError": RuntimeError,
        "ZeroDivisionError": ZeroDivisionError, "CustomError": pv.CustomError, "HandlerError": pv.HandlerError,
        "TypeError": TypeError}
 
@@ -42,6 +46,8 @@ def exn_name(ex):
         return "NoSuchRecording"
     if isinstance(ex, OperationExceptionDuringPlayback):
         return "OpDuringPlayback"
+    if isinstance(ex, _UserAssertion):
+        return "user:AssertionError"
     if isinstance(ex, AssertionError):
         return "Assertion"
     return "user:" + type(ex).__name__
@@ -184,7 +190,12 @@ def datum_of(key, value):
     if key.startswith('output: ') and isinstance(value, dict) and set(value) == {'args', 'kwargs'} \
             and isinstance(value['args'], list) and isinstance(value['kwargs'], dict):
         if len(value['args']) == 1 and isinstance(value['args'][0], BaseException) and not value['kwargs']:
-            return {"d": "opexn", "ty": type(value['args'][0]).__name__}
+            return {"d": "opexn", "ty": exn_name(value['args'][0])[5:] if exn_name(value['args'][0]).startswith("user:")
+                    else type(value['args'][0]).__name__}
+        if len(value['args']) == 1 and isinstance(value['args'][0], dict) and set(value['args'][0]) == {'error_type', 'error_repr'} \
+                and key.startswith('output: ' + TapeRecorder.OPERATION_OUTPUT_ALIAS):
+            et = value['args'][0]['error_type']     # _serializable_exception_form of an exception that cannot be encoded
+            return {"d": "opexn", "ty": "AssertionError" if et is _UserAssertion else et.__name__}
         return {"d": "out", "args": [from_py(x) for x in value['args']],
                 "kwargs": [[k, from_py(v)] for k, v in value['kwargs'].items()]}
     return {"d": "data", "v": from_py(value)}
@@ -427,7 +438,7 @@ def build_operation(ctx, op, prm=None):
     rec = ctx.rec
     cache = rec.__dict__.setdefault("_verif_ops", {})
     has_ex = op["extractor"]["kind"] != "none"
-    key = (op["cls"], op["classlevel"], has_ex)
+    key = (op["cls"], op["classlevel"], has_ex, repr(sorted(prm.items())) if prm else None)
     if key not in cache:
         holder = OpHolder()
 
@@ -504,7 +515,14 @@ def do_one_run(rec, spy, rng, run):
         spy.save_fails = run.get("save_fails", False)
         call = build_operation(ctx, run["op"], run["prm"])
         try:
-            r = call()
+            if run.get("in_handler"):
+                # the service calls the operation while it is handling another exception (a fallback in an except block)
+                try:
+                    raise RuntimeError("being handled")
+                except RuntimeError:
+                    r = call()
+            else:
+                r = call()
             o = {"o": "val", "v": from_py(r)}
         except BaseException as ex:
             o = outcome_of_exc(ex)
